@@ -55,6 +55,7 @@ fn main() {
             let threads: usize = arg(&args, "--threads").and_then(|s| s.parse().ok()).unwrap_or(16);
             let cap: f64 = arg(&args, "--cap").and_then(|s| s.parse().ok()).unwrap_or(0.0);
             let out = arg(&args, "--out");
+            exec::watchdog(20);
             let json = check(&prop, &tier, threads, cap);
             match out {
                 Some(p) => std::fs::write(p, json).unwrap(),
